@@ -263,3 +263,15 @@ Theorem C03_source_tie_constructed_converter : forall (el : ellipsoid (T:=R)) (w
      (let v := toLambert ROps (tangent_projection ROps tp el) (el_e el) w in (v2x v, v2y v))).
 Proof. exact tie_constructed_toLambert. Qed.
 Print Assumptions C03_source_tie_constructed_converter.
+
+Theorem C03_source_tie_constructed_converter_inverse : forall fuel (el : ellipsoid (T:=R)) (v : vec2 (T:=R)),
+  (forall sp : secant_params (T:=R),
+     let '(c, e, lon0, n, xs, ys) := src_ctor_secant ROps (secant_projection ROps) (tangent_projection ROps) sp el in
+     src_lambertToWGS84 ROps fuel c e lon0 n (v2x v) (v2y v) xs ys =
+     match toWGS84 ROps fuel (secant_projection ROps sp el) (el_e el) v with None => None | Some w => Some (w_lat w, w_lon w) end) /\
+  (forall tp : tangent_params (T:=R),
+     let '(c, e, lon0, n, xs, ys) := src_ctor_tangent ROps (secant_projection ROps) (tangent_projection ROps) tp el in
+     src_lambertToWGS84 ROps fuel c e lon0 n (v2x v) (v2y v) xs ys =
+     match toWGS84 ROps fuel (tangent_projection ROps tp el) (el_e el) v with None => None | Some w => Some (w_lat w, w_lon w) end).
+Proof. exact tie_constructed_toWGS84. Qed.
+Print Assumptions C03_source_tie_constructed_converter_inverse.
